@@ -16,7 +16,8 @@ RULE = (
     "triples over 54 operator kinds) in rotating contexts, every derivation sequence of length <= 2 of the C03 enumeration in "
     "11 contexts, every depth-1 (quick) / depth-2 (thorough) statement tree and every switch body with <= 3 items of the C05 "
     "enumeration; (b) Hypothesis-generated complete translation units from the C01-C05 generators; (c) the repository's "
-    "preprocessed C corpus and the corner catalogue; (d) accepted token-mutants of (c). Each x reduce_parentheses in "
+    "preprocessed C corpus and the corner catalogue; (d) accepted token-mutants of (c); (e) accepted inputs of coverage-guided campaigns (atheris/libFuzzer, parser and generator "
+    "instrumented, the round trip inside the target) and of the committed fuzz corpus. Each x reduce_parentheses in "
     "{False, True}. Oracle: generated text parses, second AST equals the first in every class/attribute/child (coordinates "
     "aside), generating from the second AST reproduces the text. Non-trivial: a program that contributes a (parent class, "
     "slot, child class) pair not seen before in its shard; distinct by the set of pairs; the number of pairs covered is reported."
@@ -252,6 +253,45 @@ def mutant_shard(arg):
     return st
 
 
+def fuzz_shard(arg):
+    """Coverage-guided campaign (atheris/libFuzzer; the generator is
+    instrumented too) with the round trip inside the target; every bucket is
+    re-decided here by rt_text, failures go through the finding predicates
+    like those of the token-mutants."""
+    from ..fuzzdrive import campaign_into
+
+    st = Stats()
+    seen = set()
+
+    def redecide(text, st, data):
+        try:
+            rt_text(text, st, "mutant", ("text", text), seen)
+        except CheckFailure as f:
+            st.failures.append(f.failure)
+
+    campaign_into(st, arg, "c07", redecide)
+    return st
+
+
+def fuzz_replay_shard(arg):
+    import json
+    import os
+
+    from .. import fuzz_parse
+
+    here, lo, hi = arg
+    st = Stats()
+    seen = set()
+    for hx in json.load(open(os.path.join(here, "corpus", "fuzz_c06.json")))[lo:hi]:
+        text = fuzz_parse.decode(bytes.fromhex(hx))
+        try:
+            ok = rt_text(text, st, "mutant", ("text", text), seen)
+            st.classes["fuzz_corpus_accepted" if ok else "fuzz_corpus_rejected"] += 1
+        except CheckFailure as f:
+            st.failures.append(f.failure)
+    return st
+
+
 def run(ctx):
     ctx.map(expr_shard, [(k[0],) for k in c02.KINDS])
     nd = ctx.pick(2, 3)
@@ -264,6 +304,17 @@ def run(ctx):
     ctx.map(corpus_shard, progs)
     c06.bases()
     ctx.map(mutant_shard, [(s, ctx.pick(600, 8000)) for s in ctx.shard_seeds(16, 3)])
+    import json
+    import os
+
+    from ..fuzzdrive import campaign_args
+
+    cj = os.path.join(ctx.here, "corpus", "fuzz_c06.json")
+    if os.path.exists(cj):
+        ncorp = len(json.load(open(cj)))
+        step = max(1, (ncorp + 15) // 16)
+        ctx.map(fuzz_replay_shard, [(ctx.here, lo, lo + step) for lo in range(0, ncorp, step)])
+    ctx.map(fuzz_shard, campaign_args(ctx, 10, 20, 10000, 300000, 7))
     ctx.exhaustive = True
     ctx.extra["exhaustive_bounds"] = "2-operator expression trees; derivation sequences <= %d x 11 contexts; statement trees depth <= %d; switch bodies <= 3 items" % (nd, sd)
 
